@@ -41,6 +41,8 @@ type crashRun struct {
 	dirty       bool
 	lastDurable string
 	nImages     int
+	nChecked    int
+	nOpened     int
 	enabled     bool
 	// options
 	powerLoss   bool
@@ -416,6 +418,14 @@ func (c *crashRun) detail(extra string, d *core.Dump) map[string]any {
 func (c *crashRun) checkImage(img, kind string, ev mon.Event, dmin, a int, extra string) {
 	dir := filepath.Join(img, "db")
 	opts := c.cfg.Options(dir)
+	c.nOpened++
+	if c.nOpened%4 == 0 {
+		// C02 lets any I/O type reopen a directory; a crash image is no exception
+		oc := c.cfg
+		oc.FileIO = 1 - oc.FileIO
+		opts = oc.Options(dir)
+		c.res.Add("images_reopened_with_other_io", 1)
+	}
 	var matched string
 	if c.preOpen != nil {
 		c.preOpen(img)
@@ -484,8 +494,15 @@ func (c *crashRun) checkImage(img, kind string, ev mon.Event, dmin, a int, extra
 				return
 			}
 		}
-		// every 8th image: the recovered directory must keep accepting writes
-		if round == 1 && c.nImages%8 == 0 {
+		// the recovered directory must keep accepting writes: checked for every 8th process-death
+		// image and for every 2nd image in which recovery had a cut tail to deal with (a
+		// fragment left behind there only shows at the restart after the next write)
+		c.nChecked++
+		every := 8
+		if kind == "power-loss" || kind == "partial-write" {
+			every = 2
+		}
+		if round == 1 && c.nChecked%every == 0 {
 			k, v := []byte("~after-crash"), core.FillValue(uint64(c.nImages), 1+c.nImages%700)
 			var perr error
 			pv, _ := core.Safe(func() { perr = db.Put(k, v) })
